@@ -837,3 +837,60 @@ Section ResultProofs.
     - destruct p as [p|]; simpl in H; [|discriminate]. injection H as <-. simpl. repeat split; auto. discriminate.
   Qed.
 End ResultProofs.
+
+(* ================================================================== the writer refuses what it cannot express *)
+Lemma mapM_Forall : forall A B (f : A -> res B) l r,
+  mapM f l = OK r -> Forall (fun a => exists b, f a = OK b) l.
+Proof.
+  induction l as [|a l IH]; intros r H; simpl in H; [constructor|].
+  apply rbind_ok in H. destruct H as (b & Hb & H). apply rbind_ok in H. destruct H as (bs & Hbs & _).
+  constructor; [exists b; exact Hb | apply (IH bs Hbs)].
+Qed.
+
+Lemma write_ok_inv : forall rows c s,
+  write rows c = OK s ->
+  Forall (fun g => is_M g = false ->
+                   gcb g = false /\ exists r l, find_row (gcls g) rows = Some r /\ rlabel r = Some l) (cqueue c)
+  /\ Forall (fun rq => py_islower (fst rq) = OK true) (measurement_tuples c).
+Proof.
+  intros rows c s H. unfold write in H.
+  apply rbind_ok in H. destruct H as (cregs & Hc & H). apply rbind_ok in H. destruct H as (gs & Hg & _).
+  split.
+  - apply mapM_Forall in Hg. rewrite Forall_forall in *. intros g Hin HnM.
+    assert (Hin' : In g (filter (fun g0 : gate => negb (is_M g0)) (cqueue c))).
+    { apply filter_In. split; [exact Hin | rewrite HnM; reflexivity]. }
+    destruct (Hg g Hin') as (st & Hst). unfold write_gate in Hst.
+    destruct (gcb g); [discriminate|]. split; [reflexivity|].
+    destruct (find_row (gcls g) rows) as [r|]; [|discriminate].
+    destruct (rlabel r) as [l|] eqn:El; [|discriminate]. exists r, l. split; [reflexivity | exact El].
+  - apply mapM_Forall in Hc. eapply Forall_impl; [|exact Hc].
+    intros rq (st & Hst). apply rbind_ok in Hst. destruct Hst as (b & Hb & Hst).
+    destruct b; [exact Hb | discriminate].
+Qed.
+
+(* ================================================================== Gate.raw / from_dict with controlled_by *)
+Definition with_controls (g : gate) (cs : list Z) : gate :=
+  mkGate (gcls g) (gargs g) (gkw g) (gtargets g) cs (gparams g) true (greg g) (gcollapse g) (gbasis g) (gsamples g).
+
+(* if the plain gate g survives raw/from_dict then so does g.controlled_by( *cs ), for every set of
+   controls for which controlled_by does not switch to another class *)
+Lemma raw_roundtrip_controlled : forall rows bases required g g' r cs,
+  find_row (gcls g) rows = Some r -> rcb r = CBGate -> String.eqb (gcls g) "M" = false ->
+  gcontrols g = [] -> cs <> [] -> memZ (Z.of_nat (length cs)) (rdispatch r) = false ->
+  nodupZ cs = true -> overlapZ (gtargets g) cs = false ->
+  from_dict rows bases (raw required g) = OK g' -> raw_rt_ok (OK g') g ->
+  from_dict rows bases (raw required (with_controls g cs)) = OK (with_controls g' cs)
+  /\ raw_rt_ok (OK (with_controls g' cs)) (with_controls g cs).
+Proof.
+  intros rows bases required g g' r cs Hr Hcb HnM Hc Hne Hd Hnd Hov Hfd (Hcls & Ht & Hcs & Hp & Hb).
+  unfold from_dict, raw in *. simpl in *. rewrite Hr in *. rewrite HnM in *.
+  apply rbind_ok in Hfd. destruct Hfd as (g0 & Hg0 & Hdance).
+  rewrite Hg0. simpl.
+  unfold controlled_by_dance in *. rewrite Hcb in *. rewrite Hc in Hdance.
+  assert (Hg0c : gcontrols g0 = []).
+  { destruct (gcontrols g0) eqn:E; [reflexivity|]. injection Hdance as <-. rewrite Hcs in E. rewrite Hc in E. discriminate. }
+  rewrite Hg0c in *. injection Hdance as <-.
+  destruct cs as [|c0 cs]; [congruence|].
+  rewrite Hd. rewrite <- Ht in Hov. rewrite Hnd, Hov. cbn [negb andb].
+  split; [reflexivity|]. unfold with_controls. simpl. repeat split; auto.
+Qed.
